@@ -11,6 +11,8 @@ R5 versions                version map's highest type version == the derive's ve
                            version n has a default that equals what a fresh Vfs starts with
 R6 restore_mount           re-attaches at the recorded index, under the mount lock, without touching the index allocator
 R7 field inventory         every field of Vfs / PseudoFs is classified (saved, rebuilt, derived, ephemeral, construction-time config)
+R4 (cont.) PseudoFs stores every modified copy of its inode table back; each rebuilt inode is registered; the version map names the state type
+R6 (cont.) restore_mount leaves the restored per-mount mapping alone
 """
 import json
 import re
